@@ -1,4 +1,4 @@
-import GraafVerif.Proof.PredTree
+import GraafVerif.Proof.PredTreeFull
 /-!
 # C19 — PredecessorTree search follows predecessor links exactly and always terminates
 
@@ -8,17 +8,45 @@ Only statements and their proofs-by-reference live here.  `searchBy` is the mode
 namespace GraafVerif.C19
 open GraafVerif.PredTree
 
-/-- Full statement of C19 (for in-range entries and an in-range start). -/
+/-- Full statement of C19 (for in-range entries and an in-range start).
+
+Reading of the property text:
+* "terminates"                       → (t1) no panic, (t2) the loop never needs more than `len + 2`
+                                        iterations: the result is the same for every larger fuel;
+* "returns Some(path) exactly when following predecessor links from s reaches a vertex satisfying
+  the predicate before the chain ends or revisits a vertex"
+                                      → (a') with "no revisit up to the target" spelled out, and (a)
+                                        the equivalent plain form (a target anywhere on the chain);
+* "the path then starts at s, ends at the first such vertex, and each element is the predecessor
+  of the one before it"               → (b): the path IS the chain prefix up to the first target,
+                                        plus the consequences spelled out on the list itself
+                                        (head, last, links, no target before the last, no repeats);
+* "search(s, t) is search_by with 'vertex equals t'" → (c). -/
 def Statement : Prop :=
   ∀ (pred : Pred) (s : Nat) (isT : Nat → Option Nat → Bool),
     (∀ x ∈ pred, ∀ v, x = some v → v < pred.length) → s < pred.length →
+    -- (t1) the call returns (it panics only for an out-of-range start) …
+    (∃ r, searchBy pred s isT = .ret r) ∧
+    -- (t2) … and terminates: `len + 2` loop iterations always suffice.
+    (∀ fuel, pred.length + 2 ≤ fuel → searchByFuel pred s isT fuel = searchBy pred s isT) ∧
     -- (a) Some exactly when a target lies on the predecessor chain …
     ((∃ p, searchBy pred s isT = .ret (some p)) ↔ ∃ k x, chain pred s k = some x ∧ target pred isT x = true) ∧
+    -- (a') … equivalently: when a target is reached before the chain ends or revisits a vertex.
+    ((∃ p, searchBy pred s isT = .ret (some p)) ↔
+      ∃ k x, chain pred s k = some x ∧ target pred isT x = true ∧
+        ∀ i j, i < j → j ≤ k → chain pred s i ≠ chain pred s j) ∧
     -- (b) … and then the path is the chain up to the FIRST target.
     (∀ p, searchBy pred s isT = .ret (some p) →
       ∃ k, p = (List.range (k+1)).map (fun j => (chain pred s j).getD 0) ∧
         (∃ x, chain pred s k = some x ∧ target pred isT x = true) ∧
-        ∀ j, j < k → ∀ y, chain pred s j = some y → target pred isT y = false) ∧
+        (∀ j, j < k → ∀ y, chain pred s j = some y → target pred isT y = false) ∧
+        -- spelled out on the list: starts at s, ends at a target, no earlier element is a target,
+        p.head? = some s ∧
+        (∃ x, p.getLast? = some x ∧ target pred isT x = true) ∧
+        (∀ i y, i + 1 < p.length → p[i]? = some y → target pred isT y = false) ∧
+        -- each element is the predecessor of the one before it, and no vertex repeats.
+        (∀ i a b, p[i]? = some a → p[i+1]? = some b → pred[a]? = some (some b)) ∧
+        p.Nodup) ∧
     -- (c) `search` is `search_by` with the equality predicate.
     (∀ t, search pred s t = searchBy pred s (fun v _ => v == t))
 
@@ -44,8 +72,63 @@ theorem searchBy_sound (pred : Pred) (s : Nat) (isT : Nat → Option Nat → Boo
 
 theorem search_eq (pred : Pred) (s t : Nat) : search pred s t = searchBy pred s (fun v _ => v == t) := rfl
 
+/-- Termination: the loop needs at most `len + 2` iterations, for EVERY predecessor vector
+(no in-range hypothesis) — the result is independent of the fuel above that bound. -/
+theorem searchBy_fuel (pred : Pred) (s : Nat) (isT : Nat → Option Nat → Bool) (fuel : Nat)
+    (hf : pred.length + 2 ≤ fuel) : searchByFuel pred s isT fuel = searchBy pred s isT :=
+  searchByFuel_adequate pred s isT fuel hf
+
+/-- Completeness: a target anywhere on the chain is found. -/
+theorem searchBy_complete (pred : Pred) (s : Nat) (isT : Nat → Option Nat → Bool)
+    (hr : ∀ x ∈ pred, ∀ v, x = some v → v < pred.length) (hs : s < pred.length)
+    (k x : Nat) (hx : chain pred s k = some x) (ht : target pred isT x = true) :
+    ∃ p, searchBy pred s isT = .ret (some p) :=
+  PredTree.searchBy_complete pred s isT hr hs k x hx ht
+
+/-- The full property. -/
+theorem statement_holds : Statement := by
+  intro pred s isT hr hs
+  have hps : pred[s]? = some pred[s] := List.getElem?_eq_getElem hs
+  -- what a returned path looks like
+  have hshape : ∀ p, searchBy pred s isT = .ret (some p) →
+      ∃ k, p = chainPath pred s k ∧
+        (∃ x, chain pred s k = some x ∧ target pred isT x = true) ∧
+        (∀ j, j < k → ∀ y, chain pred s j = some y → target pred isT y = false) := by
+    intro p h
+    exact searchBy_sound pred s isT _ p h
+  refine ⟨?_, searchBy_fuel pred s isT, ⟨?_, ?_⟩, ⟨?_, ?_⟩, ?_, fun t => search_eq pred s t⟩
+  · unfold searchBy searchByFuel
+    simp only [hps]
+    split <;> exact ⟨_, rfl⟩
+  · rintro ⟨p, h⟩
+    obtain ⟨k, _, ⟨x, hx, ht⟩, _⟩ := hshape p h
+    exact ⟨k, x, hx, ht⟩
+  · rintro ⟨k, x, hx, ht⟩
+    exact searchBy_complete pred s isT hr hs k x hx ht
+  · rintro ⟨p, h⟩
+    obtain ⟨k, _, ⟨x, hx, ht⟩, hmin⟩ := hshape p h
+    exact ⟨k, x, hx, ht, chain_distinct_before_first hx ht hmin⟩
+  · rintro ⟨k, x, hx, ht, _⟩
+    exact searchBy_complete pred s isT hr hs k x hx ht
+  · intro p h
+    obtain ⟨k, hp, ⟨x, hx, ht⟩, hmin⟩ := hshape p h
+    refine ⟨k, hp, ⟨x, hx, ht⟩, hmin, ?_, ?_, ?_, ?_, ?_⟩
+    · rw [hp]; exact chainPath_head hx
+    · exact ⟨x, by rw [hp]; exact chainPath_last hx, ht⟩
+    · intro i y hi hy
+      rw [hp] at hi hy
+      exact chainPath_before_last hx hmin i y hi hy
+    · intro i a b ha hb
+      rw [hp] at ha hb
+      exact chainPath_links hx i a b ha hb
+    · rw [hp]
+      exact chainPath_nodup hx (chain_distinct_before_first hx ht hmin)
+
 /-- Non-vacuity: a cyclic predecessor vector with a target on the cycle. -/
 example : searchBy [some 1, some 2, some 0, none] 0 (fun v _ => v == 2) = .ret (some [0, 1, 2]) := by decide
 example : (∀ x ∈ ([some 1, some 2, some 0, none] : Pred), ∀ v, x = some v → v < 4) := by decide
+/-- Non-vacuity of the `none` side: a cycle without a target, and a self-reference. -/
+example : searchBy [some 1, some 2, some 0, none] 0 (fun v _ => v == 3) = .ret none := by decide
+example : searchBy [some 0] 0 (fun v _ => v == 1) = .ret none := by decide
 
 end GraafVerif.C19
